@@ -23,6 +23,13 @@ fn cfg_for(case: u64, slow: bool) -> GenCfg {
         cfg.max_blocks = cfg.max_blocks.min(80);
         cfg.max_items = 8;
     }
+    if case % 5 == 1 {
+        // few classes, many entries per obfuscated method name (long equal-key runs)
+        cfg.min_blocks = 3;
+        cfg.max_blocks = if slow { 4 } else { 12 };
+        cfg.max_items = if slow { 12 } else { 90 };
+        cfg.inline_pct = 30;
+    }
     cfg
 }
 
@@ -199,6 +206,10 @@ fn check(text: &[u8], model: &Model<'_>, probes: &[String], methods: &[String], 
                         }
                     }
                 }
+            }
+            let run = model.blocks.get(c.as_str()).map_or(0, |b| b.entries.iter().filter(|e| e.m.obf == *me).count());
+            if run >= 7 {
+                rep.count("method_lookups_with_ge7_entries", 1);
             }
             match mexp {
                 Some(_) => {
